@@ -45,6 +45,10 @@ def run(ck, rng, tier):
         X, lab = gen(rng, ncl, m, per, sep)
         Xt, labt = gen(rng, ncl, m, [3] * ncl, sep)
         kind = rng.choice(("plain", "affine", "rowperm"))
+        if c in (2, 3, 4):
+            kind = "affine"
+        if c == 4:
+            Xt[0, 0] = 0.0     # re-coded below to exactly 1e8, next to the missing-value code
         y = [[float(l + start)] for l in lab]
         lines.append("lda %s %s %s" % (vf.fmt_mat(X.tolist(), m), vf.fmt_mat(y, 1), vf.fmt_mat(Xt.tolist(), m)))
         meta.append(("base", X, lab, start, Xt, sep, kind, ncl))
@@ -53,6 +57,13 @@ def run(ck, rng, tier):
             V, _ = np.linalg.qr(np.array([[rng.gauss(0, 1) for _ in range(m)] for _ in range(m)]))
             A = (U * np.logspace(0, math.log10(rng.choice((1.0, 10.0, 100.0))), m)) @ V.T
             cvec = np.array([rng.uniform(-5, 5) for _ in range(m)])
+            if c == 2:      # a change of units: features of order 1e-6 (offset 1e-4)
+                A, cvec = A * 1e-6, cvec * 1e-4 + 3e-4
+            elif c == 3:    # features of order 1e6
+                A, cvec = A * 1e6, cvec * 1e6
+            elif c == 4:    # x -> 1e6 x + 1e8: an exact zero becomes exactly 1e8
+                A, cvec = np.eye(m) * 1e6, np.full(m, 1e8)
+            ck.count("affine re-coding: units / offset", 1 if c in (2, 3, 4) else 0)
             lines.append("lda %s %s %s" % (vf.fmt_mat((X @ A.T + cvec).tolist(), m), vf.fmt_mat(y, 1), vf.fmt_mat((Xt @ A.T + cvec).tolist(), m)))
             meta.append(("affine", A))
         elif kind == "rowperm":
@@ -79,6 +90,7 @@ def run(ck, rng, tier):
         ck.fail("LDAPrediction", "memory_error_labels_from_1" if one else "memory_error",
                 "sanitizer/crash (rc %s) in case %d (%s, labels from %s): %s" % (rc, k, mt[0] if mt else "?", base[3] if base else "?", [l for l in err.splitlines() if "ERROR" in l or "SUMMARY" in l][:2]),
                 {"X": base[1].tolist() if base else None, "labels": [l + base[3] for l in base[2]] if base else None})
+    vf.reuse_scan(ck, "drv_lda", outs, lambda k: {"case": str(meta[k][:3])[:1500]})
     checks = vf.Checks()
     cm, cv = vf.coq_mat, vf.coq_vec
     base = None
